@@ -834,6 +834,9 @@ class IndexLevelGO(IndexLevel):
             if not issubclass(type_self, type_other):
                 raise RuntimeError(f'level for extension does not have corresponding types: {type_self}, {type_other}')
 
+        if self.targets is None:
+            raise RuntimeError('found IndexLevel with None as targets')
+
         # this will raise for duplicates
         self.index.extend(level.index.values)
 
@@ -844,9 +847,6 @@ class IndexLevelGO(IndexLevel):
                 target = t.to_index_level(offset_prior, cls=self.__class__)
                 offset_prior += len(target)
                 yield target
-
-        if self.targets is None:
-            raise RuntimeError('found IndexLevel with None as targets')
 
         self.targets.extend(target_gen())
 
